@@ -8,3 +8,4 @@ pub mod cfgmodel;
 pub mod modres;
 pub mod desc;
 pub mod schema;
+pub mod scoping;
